@@ -26,6 +26,7 @@ type Replay struct {
 	extra      []*Term           // additional hypotheses for the model query (encoder cross-check: block earlier models)
 	scalars    map[*Term]string  // scalar entry terms -> model value (for blocking)
 	scalarKind map[*Term]SortKind
+	candidate  bool // the entry state comes from a reduced query (obligation undecided), confirmed or not by execution
 }
 
 func buildReplay(prog *Program, cs *ContractSet, prop string, r ObResult, timeout int) *Replay {
